@@ -117,10 +117,51 @@ Proof.
     rewrite Ha. exists a. auto.
 Qed.
 
-Lemma csv_panics_iff : forall rows,
-  csv_panics rows = true <-> exists r, In r rows /\ i32v (jr_demand r) = -2147483648.
+Lemma abs_i32_none_iff : forall x, abs_i32 x = None <-> i32v x = -2147483648.
 Proof.
-  intros rows. unfold csv_panics. rewrite existsb_exists. split.
+  intros x. unfold abs_i32. split.
+  - intros E. pose proof (i32ok x) as Hb. unfold in_i32 in Hb.
+    destruct (Z.eq_dec (i32v x) (-2147483648)) as [Hm|Hm]; [exact Hm|].
+    destruct (to_i32_ok (Z.abs (i32v x))) as (a & Ha & _); [unfold in_i32; lia|congruence].
+  - intros Hm. rewrite Hm. reflexivity.
+Qed.
+
+(* the import rejects the tables exactly when some DEMAND is i32::MIN (repair 1cad789) *)
+Lemma csv_rejects_iff : forall rows,
+  csv_rejects rows = true <-> exists r, In r rows /\ i32v (jr_demand r) = -2147483648.
+Proof.
+  intros rows. unfold csv_rejects. rewrite existsb_exists. split.
+  - intros (r & Hr & H). exists r. split; [exact Hr|]. apply abs_i32_none_iff.
+    destruct (abs_i32 (jr_demand r)); [discriminate|reflexivity].
+  - intros (r & Hr & Hm). exists r. split; [exact Hr|]. apply abs_i32_none_iff in Hm. rewrite Hm. reflexivity.
+Qed.
+
+(* ... and in every table it accepts, `demand.abs()` is exact for every row: the import is total (no overflow) *)
+Lemma csv_accepted_abs_exact : forall rows vrows p r,
+  read_csv_problem rows vrows = CsvOk p -> In r rows ->
+  p = read_csv rows vrows /\ exists a, abs_i32 (jr_demand r) = Some a /\ i32v a = Z.abs (i32v (jr_demand r)).
+Proof.
+  intros rows vrows p r H Hr. unfold read_csv_problem in H. destruct (csv_rejects rows) eqn:E; [discriminate|].
+  inversion H. split; [reflexivity|].
+  destruct (abs_i32 (jr_demand r)) as [a|] eqn:Ea.
+  - exists a. split; [reflexivity|]. unfold abs_i32 in Ea.
+    pose proof (i32ok (jr_demand r)) as Hb. unfold in_i32 in Hb.
+    assert (i32v (jr_demand r) <> -2147483648) as Hm.
+    { intros Hm. rewrite Hm in Ea. vm_compute in Ea. discriminate. }
+    destruct (to_i32_ok (Z.abs (i32v (jr_demand r)))) as (a' & Ha' & Hv); [unfold in_i32; lia|]. congruence.
+  - exfalso. assert (csv_rejects rows = true) as C; [|congruence].
+    apply csv_rejects_iff. exists r. split; [exact Hr|]. apply abs_i32_none_iff. exact Ea.
+Qed.
+
+Lemma csv_total : forall rows vrows,
+  read_csv_problem rows vrows = CsvErr \/ read_csv_problem rows vrows = CsvOk (read_csv rows vrows).
+Proof. intros rows vrows. unfold read_csv_problem. destruct (csv_rejects rows); auto. Qed.
+
+(* the pre-fix overflow condition *)
+Lemma csv_panics_prefix_iff : forall rows,
+  csv_panics_prefix rows = true <-> exists r, In r rows /\ i32v (jr_demand r) = -2147483648.
+Proof.
+  intros rows. unfold csv_panics_prefix. rewrite existsb_exists. split.
   - intros (r & Hr & H). exists r. split; [exact Hr|]. unfold abs_i32 in H.
     destruct (to_i32 (Z.abs (i32v (jr_demand r)))) eqn:E; [discriminate|].
     pose proof (i32ok (jr_demand r)) as Hb. unfold in_i32 in Hb.
@@ -249,11 +290,13 @@ Lemma csv_shared_profile_witness :
   = ["vehicle1_1"; "vehicle1_2"; "vehicle2_1"; "vehicle2_2"].
 Proof. vm_compute. reflexivity. Qed.
 
-Lemma csv_panic_witness : csv_panics [wit_jrow (Mk_i32 (-2147483648) eq_refl)] = true.
-Proof. vm_compute. reflexivity. Qed.
+Lemma csv_panic_prefix_witness :
+  csv_panics_prefix [wit_jrow (Mk_i32 (-2147483648) eq_refl)] = true /\
+  read_csv_problem [wit_jrow (Mk_i32 (-2147483648) eq_refl)] [] = CsvErr.
+Proof. split; vm_compute; reflexivity. Qed.
 
 Lemma csv_nonvacuous_witness :
-  csv_panics [wit_jrow (Mk_i32 3 eq_refl)] = false /\
+  csv_rejects [wit_jrow (Mk_i32 3 eq_refl)] = false /\
   map Job_id (read_jobs [wit_jrow (Mk_i32 3 eq_refl); wit_jrow (Mk_i32 (-3) eq_refl)]) = ["job1"] /\
   NoDup (all_vehicle_ids (read_csv [] [wit_vrow "vehicle1"])).
 Proof.
@@ -261,5 +304,5 @@ Proof.
   vm_compute. repeat constructor; cbn; intuition discriminate.
 Qed.
 
-Lemma csv_total_refuted : exists rows, csv_panics rows = true.
-Proof. eexists. exact csv_panic_witness. Qed.
+Lemma csv_total_prefix_refuted : exists rows, csv_panics_prefix rows = true /\ read_csv_problem rows [] = CsvErr.
+Proof. eexists. exact csv_panic_prefix_witness. Qed.
